@@ -90,6 +90,20 @@ func opcodeCases(p *packages.Package, fd *ast.FuncDecl) (cases []opcodeCase, swi
 		if !strings.HasSuffix(ts, "Opcode") && !strings.HasSuffix(ts, "opcode") {
 			return true
 		}
+		// a switch over the opcode none of whose arms calls a handler is a
+		// guard (it rejects or admits opcodes), not a dispatcher
+		dispatches := false
+		ast.Inspect(sw.Body, func(n ast.Node) bool {
+			if call, ok := n.(*ast.CallExpr); ok {
+				if sel, ok := call.Fun.(*ast.SelectorExpr); ok && strings.HasPrefix(sel.Sel.Name, "run") {
+					dispatches = true
+				}
+			}
+			return true
+		})
+		if !dispatches {
+			return true
+		}
 		switches++
 		for _, st := range sw.Body.List {
 			cc := st.(*ast.CaseClause)
@@ -1089,6 +1103,13 @@ func runC03(c *core.Ctx) core.Meta {
 			}
 		}
 	}
+
+	// ---------------- R03.19 float min / max incl. NaN operands (c03fsel.go) ----------------
+	checkFloatMinMax(c, handlers, prov)
+
+	// ---------------- R03.20 SDWA sub-dword selection (c03sdwa.go, bitprov.go) ----------------
+	checkSDWASelect(c, alus, prov)
+	checkSDWAHandled(c, alus, handlers)
 
 	// ---------------- R03.12 conditional moves select with the right polarity ----------------
 	st12 := c.Rule("R03.12", "v_cndmask_b32 writes S1 where the lane's bit of the condition mask (VCC, or the SGPR pair in SRC2) is set and S0 where it is clear; s_cselect writes S0 when SCC is 1 and S1 otherwise; s_cmov / s_cmovk write only when SCC is 1: decided by resolving the handler's test of the selector both ways and following the value that reaches the destination write", 6)
